@@ -23,7 +23,7 @@ FULL = ["January", "February", "March", "April", "May", "June", "July", "August"
         "November", "December"]
 ABBR = [m[:3].lower() for m in FULL]
 LETTERS = "".join(sorted(set("".join(FULL).lower() + "".join(FULL).upper())))
-EXTRA = "1²{\" x"          # word family: one ASCII digit, one non-ASCII digit character, enclosers, blank, filler
+EXTRA = "1²{\" xſ"         # word family: one ASCII digit, one non-ASCII digit, enclosers, blank, filler, U+017F (casefolds to "s", lower() leaves it)
 DIGITS = "0123456789²٣"    # numeric family
 MWS = {"int": MM.MonthIntMiddleware, "abbr": MM.MonthAbbreviationMiddleware, "long": MM.MonthLongStringMiddleware}
 
